@@ -101,6 +101,14 @@ func UntarDirectory(r io.Reader, destDir string) error {
 		return fmt.Errorf("failed to create destination directory: %w", err)
 	}
 
+	// Resolve the destination itself: entries are located relative to its
+	// physical path so that symbolic links created by earlier entries (or
+	// already present) cannot redirect later entries outside of it.
+	realDest, err := filepath.EvalSymlinks(destDir)
+	if err != nil {
+		return fmt.Errorf("failed to resolve destination directory: %w", err)
+	}
+
 	// Create gzip reader
 	gzr, err := gzip.NewReader(r)
 	if err != nil {
@@ -126,6 +134,13 @@ func UntarDirectory(r io.Reader, destDir string) error {
 			return err
 		}
 
+		// Locate the entry physically: symlinks in its parent directories
+		// are resolved and must stay inside the destination.
+		targetPath, err = resolveInDest(realDest, destDir, targetPath)
+		if err != nil {
+			return err
+		}
+
 		switch header.Typeflag {
 		case tar.TypeDir:
 			// Create directory
@@ -137,6 +152,13 @@ func UntarDirectory(r io.Reader, destDir string) error {
 			// Create parent directories if needed
 			if err := os.MkdirAll(filepath.Dir(targetPath), 0755); err != nil {
 				return fmt.Errorf("failed to create parent directory: %w", err)
+			}
+
+			// Replace an existing symlink instead of writing through it
+			if info, err := os.Lstat(targetPath); err == nil && info.Mode()&os.ModeSymlink != 0 {
+				if err := os.Remove(targetPath); err != nil {
+					return fmt.Errorf("failed to replace symlink %s: %w", targetPath, err)
+				}
 			}
 
 			// Create file
@@ -154,7 +176,7 @@ func UntarDirectory(r io.Reader, destDir string) error {
 
 		case tar.TypeSymlink:
 			// Validate symlink target
-			if err := validateSymlink(destDir, targetPath, header.Linkname); err != nil {
+			if err := validateSymlink(realDest, targetPath, header.Linkname); err != nil {
 				return err
 			}
 
@@ -174,6 +196,10 @@ func UntarDirectory(r io.Reader, destDir string) error {
 		case tar.TypeLink:
 			// Hard links - validate target is within destDir
 			linkTarget, err := sanitizeTarPath(destDir, header.Linkname)
+			if err != nil {
+				return err
+			}
+			linkTarget, err = resolveInDest(realDest, destDir, linkTarget)
 			if err != nil {
 				return err
 			}
@@ -234,6 +260,47 @@ func sanitizeTarPath(destDir, name string) (string, error) {
 	}
 
 	return targetPath, nil
+}
+
+// resolveInDest returns the physical location of path, a sanitized path that is
+// lexically inside destDir. Symbolic links in the parent directories of path
+// are resolved (the final element is not), and every resolved link must point
+// inside realDest, the physical path of destDir. Elements that do not exist yet
+// are kept as they are: they will be created as plain directories.
+func resolveInDest(realDest, destDir, path string) (string, error) {
+	rel, err := filepath.Rel(destDir, path)
+	if err != nil {
+		return "", fmt.Errorf("failed to resolve path: %w", err)
+	}
+	if rel == "." {
+		return realDest, nil
+	}
+
+	parts := strings.Split(rel, string(filepath.Separator))
+	cur := realDest
+	for i, part := range parts[:len(parts)-1] {
+		next := filepath.Join(cur, part)
+		info, err := os.Lstat(next)
+		if os.IsNotExist(err) {
+			return filepath.Join(append([]string{next}, parts[i+1:]...)...), nil
+		}
+		if err != nil {
+			return "", fmt.Errorf("failed to resolve path: %w", err)
+		}
+		if info.Mode()&os.ModeSymlink != 0 {
+			resolved, err := filepath.EvalSymlinks(next)
+			if err != nil {
+				return "", fmt.Errorf("failed to resolve symlink %s: %w", next, err)
+			}
+			if resolved != realDest && !strings.HasPrefix(resolved, realDest+string(filepath.Separator)) {
+				return "", fmt.Errorf("path escapes destination directory through symlink: %s", rel)
+			}
+			next = resolved
+		}
+		cur = next
+	}
+
+	return filepath.Join(cur, parts[len(parts)-1]), nil
 }
 
 // validateSymlink checks if a symlink target is safe (doesn't escape the destination).
